@@ -11,6 +11,9 @@ i.e. what StepwisePPO reads with `env.get_reward(next_td, None)` after every env
     permuted at every depth, finished rows kept in the batch and stepped with mask-admitted padding actions next to rows still
     running), the per-step reward being read the way StepwisePPO reads it; sampled episodes are re-run solo (batch of one) and
     as rows of mixed batches; every recorded row is validated by TLC (spec/common/DenseTrace.tla.tmpl).
+(2a') the real StepwisePPO.shared_step drives the real environments with a random mask-confined stub policy; the transitions
+    it hands to its replay buffer (reward = what it read after the step; rows that finish early keep being stepped) are
+    re-assembled per row and validated by the same trace spec (monitors prefixed "ppo-").
 (2b) every behaviour TLC explored is replayed into the real environment (rows of different length in one batch), comparing
     after every action the reward with what the specification demands and the projected state with the model's.
 Violations: "C03" (dense TSP), "C07" (scheduling), "C04" (a row's rewards depend on padding / batch-mates).
@@ -649,7 +652,7 @@ def judge(ad, fam, eps, recs, val_future, solo_future, seed, viols, cov, add, ou
     mf = {}
     for t in r.tuples("MODELFAIL"):
         mf.setdefault(t[1], []).append((t[2], t[3]))
-    behaviours = [(t[1], list(t[2]), list(t[3]), list(t[4]), t[5]) for t in r.tuples("T")]
+    behaviours = sorted((t[1], list(t[2]), list(t[3]), list(t[4]), t[5]) for t in r.tuples("T"))   # TLC's print order is not fixed
     states = {(t[1], tuple(t[2])): t[3] for t in r.tuples("Q")}
     if len(states) != r.distinct:
         raise tlc.TLCError("%s: %d of %d model states exported" % (ad.tag, len(states), r.distinct))
